@@ -352,6 +352,36 @@ pub fn cli(args: &[String]) -> i32 {
     0
 }
 
+/// `dsim cli-one --run-seed N [--dump-only]`: the scenario of one run seed, printed and executed
+/// (a debugging aid for runs the watchdog stopped).
+pub fn cli_one(args: &[String]) -> i32 {
+    let rs = arg_u64(args, "--run-seed", 0);
+    let cr_percent = arg_u64(args, "--cr-percent", 3) as usize;
+    let sc = cli::generate(rs, &GenCfg { cr_percent, allow_long_lines: true, small: false });
+    let mut brief = sc.clone();
+    for f in brief.files.iter_mut() {
+        if f.1.len() > 20 {
+            f.1.truncate(20);
+        }
+    }
+    brief.stdin_lines.truncate(20);
+    if brief.patterns.len() > 30 {
+        brief.patterns.truncate(30);
+    }
+    println!("{}", serde_json::to_string(&brief).unwrap());
+    println!("files={} lines={:?} stdin_lines={} patterns={}", sc.files.len(), sc.files.iter().map(|f| f.1.len()).collect::<Vec<_>>(), sc.stdin_lines.len(), sc.patterns.len());
+    if has(args, "--dump-only") {
+        return 0;
+    }
+    let bins = bins(args);
+    let root = scratch_root(args);
+    let t0 = Instant::now();
+    let o = cli::run(&sc, &bins, &root.join("one"), known_open(args, "crlf-stripped"));
+    let _ = std::fs::remove_dir_all(&root);
+    println!("ran in {:.1}s: violation={:?} syscalls={}", t0.elapsed().as_secs_f64(), o.violation.map(|v| (v.class, v.detail)), o.counters.syscalls);
+    0
+}
+
 pub fn replay(doc: &serde_json::Value, args: &[String]) -> i32 {
     let sc: Scenario = serde_json::from_value(doc["scenario"].clone())
         .unwrap_or_else(|e| harness_error(&format!("replay file: bad scenario: {e}")));
